@@ -374,6 +374,45 @@ def _emit(run, rule, f, db, probs, okmsg, site):
         run.ok(rule, inst, f.loc, okmsg)
 
 
+def check_unwind_fill(run, db):
+    """memory released by unwinding a stack carries the freed pattern: fixed_memory_stack::unwind(top) fills [top, cur_) before it
+    moves the cursor; memory_stack::unwind fills the released part [m.top, m.end) of the marker's block on the path that crosses
+    blocks (the stack is re-seated there, so the fixed stack's own unwind would see nothing to fill) and goes through the fixed
+    stack's unwind on the path that stays in the block"""
+    n = 0
+    for f in db.find(cls_t='detail::fixed_memory_stack', short='unwind'):
+        n += 1
+        probs = []
+        for s in fwd.summarize(f, db=db, roles={0: 'top'}, no_forward=True):
+            if s.end != 'return':
+                continue
+            fills = [(i, c[0]) for i, c in enumerate(s.calls) if c[1].get('short') in ('debug_fill', 'debug_fill_free')]
+            w = [x for x in s.writes if x[0] == 'this.cur_']
+            okf = [i for i, c in fills if c in ('debug_fill($top,(this.cur_ - $top),g:debug_magic::freed_memory)', 'debug_fill_free($top,(this.cur_ - $top),0)')]
+            if not okf:
+                probs.append('does not fill [top, cur_) with the freed pattern (fills: %s)' % [c for i, c in fills])
+            elif w and w[0][4] <= okf[0]:
+                probs.append('moves the cursor before filling: the length cur_ - top is then zero')
+        _emit(run, 'R-FILL.unwind', f, db, probs, 'fills [top, cur_) as freed, then moves the cursor', {'function': 'detail::fixed_memory_stack::unwind', 'role': 'released stack memory marked freed'})
+    for f in db.find(cls_t='memory_stack', short='unwind'):
+        n += 1
+        probs = []
+        for s in fwd.summarize(f, db=db, roles={0: 'm'}, no_forward=True):
+            if s.end != 'return':
+                continue
+            names = [c[0] for c in s.calls]
+            reseat = [i for i, c in enumerate(names) if c == 'this.stack_.operator=(detail::fixed_memory_stack{$m.top})']
+            fill = [i for i, c in enumerate(names) if c in ('debug_fill_free($m.top,($m.end - $m.top),0)', 'debug_fill($m.top,($m.end - $m.top),g:debug_magic::freed_memory)')]
+            if reseat:
+                if not fill:
+                    probs.append('the path that crosses blocks re-seats the stack at m.top without marking [m.top, m.end) of the marker\'s block as freed '
+                                 '(after re-seating, the fixed stack has nothing left to fill)')
+            elif 'this.stack_.unwind($m.top)' not in names and any('deallocate_block' in c for c in names):
+                probs.append('blocks are dropped but the released part of the marker\'s block is not marked freed')
+        _emit(run, 'R-FILL.unwind', f, db, probs, 'cross-block: [m.top, m.end) marked freed; same block: fixed stack unwind', {'function': 'memory_stack::unwind', 'role': 'released stack memory marked freed'})
+    return n
+
+
 def check_release_bytes(run, db):
     """the freed pattern is written over exactly the bytes that were handed out: the array release functions of the pools (and of
     their traits) pass the free list the same byte count as their acquire siblings (shared rule R-UNLINK.bytes of C04)"""
@@ -382,6 +421,7 @@ def check_release_bytes(run, db):
 
 
 def run(run):
+    run.rule('R-FILL.unwind', 'memory released by unwinding a stack is marked freed', floor=2)
     run.rule('R-FILL.bytes', 'array releases of the pools fill exactly the bytes that were acquired', floor=10)
     run.rule('R-FILL.free', 'debug_fill_free structure', floor=1)
     run.rule('R-FILL.new', 'debug_fill_new structure', floor=1)
@@ -404,6 +444,8 @@ def run(run):
             run.broke('debug_fill / debug_is_filled not found [%s]' % cfg)
         if check_lowlevel(run, db) < 3:
             run.broke('low-level allocators not found [%s]' % cfg)
+        if check_unwind_fill(run, db) < 2:
+            run.broke('stack unwind functions not found [%s]' % cfg)
         if check_release_bytes(run, db) < 6:
             run.broke('array siblings of the pools not found [%s]' % cfg)
         if check_lists(run, db) < 8:
